@@ -359,8 +359,10 @@ func c01refs(v reflect.Value, out map[uintptr]bool) {
 	case reflect.Slice:
 		if !v.IsNil() && v.Cap() > 0 {
 			out[v.Slice(0, v.Cap()).Index(0).Addr().Pointer()] = true
-			for i := 0; i < v.Len(); i++ {
-				c01refs(v.Index(i), out)
+			// the spare capacity is reachable too (re-slicing)
+			full := v.Slice(0, v.Cap())
+			for i := 0; i < full.Len(); i++ {
+				c01refs(full.Index(i), out)
 			}
 		}
 	case reflect.Array:
